@@ -1,7 +1,7 @@
 (* Proof/TablesP.v — the CSV row builders REGENERATED from output.py (get_hourly_loading_data, get_borehole_location_data):
    one row per input element, in order, carrying the element unchanged next to its label *)
 From Coq Require Import ZArith QArith List Bool Lia.
-From GHE Require Import Base.QUtil gen.Src.
+From GHE Require Import Base.QUtil gen.Src Model.GJoin.
 Import ListNotations.
 Open Scope Q_scope.
 
@@ -60,3 +60,32 @@ Proof.
 Qed.
 Lemma bore_table_echo coords : bore_table_rows coords = map (fun p => [fst p; snd p]) coords.
 Proof. unfold bore_table_rows. cbv zeta. exact (bore_fold coords []). Qed.
+
+(* ---------- g-function table (get_g_function_data) ---------- *)
+Definition g_row (t : Q * Q * Q) : list Q := let '(a, b, c) := t in [a; b; c].
+Lemma g_fold (l : list (Q * Q * Q)) : forall acc,
+  fold_left (fun (st_ : list (list Q)) '(log_val, g_val, g_bhw_val) => st_ ++ [[log_val; g_val; g_bhw_val]]) l acc = acc ++ map g_row l.
+Proof.
+  induction l as [|[[a b] c] t IH]; intros acc; cbn [fold_left map]; [rewrite app_nil_r; reflexivity|].
+  rewrite IH, <- app_assoc. reflexivity.
+Qed.
+Lemma g_rows_spec x y z : g_table_rows x y z = map g_row (combine (combine x y) z).
+Proof. unfold g_table_rows. cbv zeta. exact (g_fold (combine (combine x y) z) []). Qed.
+
+Definition column (k : nat) (rows : list (list Q)) : list Q := map (fun r => nth k r 0) rows.
+
+Lemma g_table_columns x : forall y z, length y = length x -> length z = length x ->
+  column 0 (g_table_rows x y z) = x /\ column 1 (g_table_rows x y z) = y /\ column 2 (g_table_rows x y z) = z /\
+  length (g_table_rows x y z) = length x /\ Forall (fun r => length r = 3%nat) (g_table_rows x y z).
+Proof.
+  intros y z. rewrite g_rows_spec. revert y z.
+  induction x as [|a x IH]; intros [|b y] [|c z] Ly Lz; cbn [length] in *; try discriminate.
+  - cbn. repeat split; constructor.
+  - injection Ly as Ly. injection Lz as Lz. destruct (IH y z Ly Lz) as (A & B & C & D & E).
+    cbn [combine map column g_row nth length]. unfold column in *. rewrite A, B, C, D.
+    repeat split; try reflexivity. constructor; [reflexivity | exact E].
+Qed.
+
+Lemma g_table_time_increasing x y z : length y = length x -> length z = length x ->
+  strictly_increasing x -> strictly_increasing (column 0 (g_table_rows x y z)).
+Proof. intros Ly Lz H. destruct (g_table_columns x y z Ly Lz) as [E _]. rewrite E. exact H. Qed.
